@@ -131,6 +131,10 @@ def disp2eig(ctx, rng, evec_disp2eig):
         cplx = bool(rng.random() < 0.5)
         U = random_unitary(rng, 3 * N, cplx)
         mass = rng.uniform(1.0, 240.0, N)
+        if t % 4 == 1:
+            mass = mass * 1.66053906660e-27                 # the same cell with its masses in kilogram (any unit does: the result is normalised)
+        elif t % 4 == 3:
+            mass = mass * 1822.888486                       # ... or in electron masses
         m3 = numpy.repeat(mass, 3)
         s = 10.0 ** rng.uniform(-9.0, 6.0, 3 * N)          # arbitrary norm: fifteen decades
         D = s[:, None] * U / numpy.sqrt(m3)[None, :]
@@ -219,7 +223,12 @@ def load(ctx, rng, evec_load, eig):
                 lines = grammar(nq, np_)
             elif [list(x) for x in lines] != grammar(nq, np_):
                 raise MachineryError("harness grammar differs from the specification's EigFile")
-            vals = {"q": numpy.round(rng.uniform(-1, 1, (nq, 3)), 4),
+            qv = numpy.round(rng.uniform(-1, 1, (nq, 3)), 4)
+            # mesh points as a four-decimal print shows them (thirds, sixths, twelfths): the printed number is the coordinate
+            qv[0] = [0.3333, 0.6667, -0.1667]
+            if nq > 1:
+                qv[-1] = [0.0833, -0.3333, 0.5]
+            vals = {"q": qv,
                     "freq": [[(round(float(rng.uniform(-5, 40)), 6), round(float(rng.uniform(-150, 1300)), 6)) for _ in range(np_)] for _ in range(nq)],
                     "vec": numpy.round(rng.uniform(-1, 1, (nq, np_, np_ // 3, 3)) + 1j * rng.uniform(-1, 1, (nq, np_, np_ // 3, 3)), 6)}
             f = tmp / "matdyn.eig"
